@@ -30,6 +30,7 @@ from pathlib import Path
 
 from harness.core import TranslationError
 
+from . import c04_norm as norm
 from .common import HEADER, body_no_doc, fail, find_func, parse
 
 NPR = ("np.random.", "numpy.random.")
@@ -65,109 +66,120 @@ def srs_cfg(repo: Path) -> dict:
     if params != ["seed"]:
         fail(fn, "set_random_seed(seed) signature")
     body = body_no_doc(fn)
-    if len(body) != 1 or not isinstance(body[0], ast.If):
-        fail(fn, "body must be one `if seed is (not) None: ... else: ...`")
-    node = body[0]
-    t = node.test
-    if not (isinstance(t, ast.Compare) and isinstance(t.left, ast.Name) and t.left.id == "seed"
-            and len(t.ops) == 1 and isinstance(t.comparators[0], ast.Constant) and t.comparators[0].value is None):
-        fail(t, "test must be `seed is not None` / `seed is None`")
-    if isinstance(t.ops[0], ast.IsNot):
-        some, none = node.body, node.orelse
-    elif isinstance(t.ops[0], ast.Is):
-        some, none = node.orelse, node.body
-    else:
-        fail(t, "test must use is / is not")
-    none = [s for s in none if not isinstance(s, ast.Pass)]
-    if not (len(none) == 1 and isinstance(none[0], ast.Expr) and isinstance(none[0].value, ast.Yield)
-            and none[0].value.value is None):
-        fail(node, "the seed-None branch must be a bare `yield`")
 
-    # linearise the seeded branch: events on the normal path and on the path where `yield` raises
-    ev_normal, ev_raise = [], []
-    state = {"yielded": False, "n_yield": 0}
+    # Read the function by WALKING ITS PATHS, not by matching its layout: for `seed is None` and for
+    # `seed is not None`, on the normal path and on the path where the exception is thrown in at the `yield`,
+    # which of save (x = np.random.get_state()) / seed (np.random.seed(seed)) / yield / restore
+    # (np.random.set_state(x)) happen, in which order.  Nested if/else, guard clause + early return, inverted test,
+    # renamed local, comments and docstrings all give the same traces.  Any other statement fails closed.
+    def test_value(t, seed_none):
+        if isinstance(t, ast.UnaryOp) and isinstance(t.op, ast.Not):
+            return not test_value(t.operand, seed_none)
+        if isinstance(t, ast.Compare) and len(t.ops) == 1 and isinstance(t.ops[0], (ast.Is, ast.IsNot)):
+            l, r = t.left, t.comparators[0]
+            if (_is_name(l, "seed") and _is_none(r)) or (_is_none(l) and _is_name(r, "seed")):
+                return seed_none if isinstance(t.ops[0], ast.Is) else not seed_none
+        fail(t, "a test in set_random_seed must be `seed is None` / `seed is not None`")
 
-    def walk(stmts, in_try_finals):
-        """in_try_finals: list of finalbodies enclosing the current position (innermost last)."""
-        for st in stmts:
+    def run_path(seed_none, throw):
+        ev = []
+
+        def block(stmts, thrown):
+            """-> 'fall' | 'return' | 'exc'"""
+            for st in stmts:
+                r = one(st, thrown)
+                if r != "fall":
+                    return r
+            return "fall"
+
+        def one(st, thrown):
             if isinstance(st, ast.Pass):
-                continue
-            if isinstance(st, ast.Assign) and len(st.targets) == 1 and isinstance(st.targets[0], ast.Name) \
-                    and isinstance(st.value, ast.Call) and _np_random_attr(st.value) == "get_state" \
-                    and not st.value.args and not st.value.keywords:
-                ev_normal.append(("save", st.targets[0].id))
-                continue
+                return "fall"
+            if isinstance(st, ast.Expr) and isinstance(st.value, ast.Constant):
+                return "fall"
+            if isinstance(st, ast.Return) and st.value is None:
+                return "return"
+            tgt = v = None
+            if isinstance(st, ast.Assign) and len(st.targets) == 1:
+                tgt, v = st.targets[0], st.value
+            elif isinstance(st, ast.AnnAssign) and st.value is not None:
+                tgt, v = st.target, st.value
+            if tgt is not None:
+                if isinstance(tgt, ast.Name) and isinstance(v, ast.Call) and _np_random_attr(v) == "get_state" \
+                        and not v.args and not v.keywords:
+                    ev.append(("save", tgt.id))
+                    return "fall"
+                fail(st, "assignment shape not accepted in set_random_seed")
             if isinstance(st, ast.Expr) and isinstance(st.value, ast.Call):
-                a = _np_random_attr(st.value)
                 c = st.value
+                a = _np_random_attr(c)
+                args = [x for x in c.args] + [k.value for k in c.keywords]
                 if a == "seed":
-                    args = [ast.unparse(x) for x in c.args] + [ast.unparse(k.value) for k in c.keywords]
-                    if args != ["seed"]:
+                    if [ast.unparse(x) for x in args] != ["seed"]:
                         fail(st, "np.random.seed must be given `seed`")
-                    ev_normal.append(("seed", None))
-                    continue
+                    ev.append(("seed", None))
+                    return "fall"
                 if a == "set_state":
-                    args = [x for x in c.args] + [k.value for k in c.keywords]
                     if len(args) != 1 or not isinstance(args[0], ast.Name):
                         fail(st, "np.random.set_state must be given the saved name")
-                    ev_normal.append(("restore", args[0].id))
-                    continue
+                    ev.append(("restore", args[0].id))
+                    return "fall"
                 fail(st, "unexpected call in set_random_seed")
             if isinstance(st, ast.Expr) and isinstance(st.value, ast.Yield) and st.value.value is None:
-                state["n_yield"] += 1
-                ev_normal.append(("yield", None))
-                # exception thrown into the generator here: the enclosing finally blocks run, innermost first
-                ev_raise.extend(x for x in ev_normal)
-                for fb in reversed(in_try_finals):
-                    sub_n = []
-                    _collect_simple(fb, sub_n)
-                    ev_raise.extend(sub_n)
-                continue
+                if thrown[0] is None:
+                    fail(st, "a second yield (or a yield while leaving) in set_random_seed")
+                ev.append(("yield", None))
+                if thrown[0]:
+                    thrown[0] = None
+                    return "exc"
+                thrown[0] = None
+                return "fall"
+            if isinstance(st, ast.If):
+                return block(st.body if test_value(st.test, seed_none) else st.orelse, thrown)
             if isinstance(st, ast.Try):
                 if st.handlers or st.orelse:
                     fail(st, "try in set_random_seed may only have a finally block")
-                walk(st.body, in_try_finals + [st.finalbody])
-                walk(st.finalbody, in_try_finals)
-                continue
+                r = block(st.body, thrown)
+                r2 = block(st.finalbody, thrown)
+                return r2 if r2 != "fall" else r
             fail(st, "statement shape not accepted in set_random_seed")
 
-    def _collect_simple(stmts, out):
-        for st in stmts:
-            if isinstance(st, ast.Pass):
-                continue
-            if isinstance(st, ast.Expr) and isinstance(st.value, ast.Call) and _np_random_attr(st.value) == "set_state":
-                c = st.value
-                args = [x for x in c.args] + [k.value for k in c.keywords]
-                if len(args) != 1 or not isinstance(args[0], ast.Name):
-                    fail(st, "np.random.set_state must be given the saved name")
-                out.append(("restore", args[0].id))
-                continue
-            fail(st, "finally block of set_random_seed may only restore the state")
+        thrown = [bool(throw)]            # True/False until the yield is met, None afterwards
+        block(body, thrown)
+        if thrown[0] is not None:
+            fail(fn, "a path through set_random_seed never yields")
+        return ev
 
-    walk(some, [])
-    if state["n_yield"] != 1:
-        fail(node, "the seeded branch must yield exactly once")
+    ev_none = run_path(True, False)
+    ev_none_raise = run_path(True, True)
+    for e in (ev_none, ev_none_raise):
+        if [k for k, _ in e if k != "save"] != ["yield"]:
+            fail(fn, "for seed None set_random_seed must only `yield` (no seeding, no restoring)")
+    ev_normal = run_path(False, False)
+    ev_raise = run_path(False, True)
+    node = fn
     kinds = [k for k, _ in ev_normal]
     iy = kinds.index("yield")
     pre = ev_normal[:iy]
     post = ev_normal[iy + 1:]
     saves = [(i, n) for i, (k, n) in enumerate(pre) if k == "save"]
     seeds = [i for i, (k, _) in enumerate(pre) if k == "seed"]
-    if len(saves) > 1 or len(seeds) > 1 or any(k in ("save", "seed") for k, _ in post):
+    if len(saves) > 1 or len(seeds) > 1 or any(k in ("save", "seed") for k, _ in post) or ev_raise[:iy + 1] != ev_normal[:iy + 1]:
         fail(node, "more than one save/seed, or save/seed after the yield")
     saved_name = saves[0][1] if saves else None
     reseeds = bool(seeds)
     save_before = bool(saves) and (not seeds or saves[0][0] < seeds[0])
 
     def restores(evs):
+        if any(k in ("save", "seed") for k, _ in evs):
+            fail(node, "save/seed after the yield")
         names = [n for k, n in evs if k == "restore"]
         if any(n != saved_name for n in names):
             fail(node, "set_state is given something else than the saved state")
         return bool(names) and saved_name is not None
 
-    raise_tail = ev_raise[len(ev_normal[:iy + 1]):]
     return dict(save_before_seed=save_before, reseeds=reseeds, restore_on_normal=restores(post),
-                restore_on_raise=restores(raise_tail))
+                restore_on_raise=restores(ev_raise[iy + 1:]))
 
 
 # ------------------------------------------------------------------ mode plumbing
@@ -185,10 +197,19 @@ def _kw(call: ast.Call, name: str):
     return None
 
 
+def _rebinds(scope, name) -> bool:
+    """Is the plain name (a parameter) assigned to anywhere in the scope?  Then `name` at a call site need not be
+    the value that came in."""
+    return any(isinstance(n, ast.Name) and n.id == name and isinstance(n.ctx, (ast.Store, ast.Del)) for n in ast.walk(scope))
+
+
 def _link_all_calls(scope, callee, kw, accepted, where) -> bool:
     cs = _calls(scope, callee)
     if not cs:
         raise TranslationError(f"{where}: no call of {callee} found")
+    plain = [a for a in accepted if a.isidentifier()]
+    if any(_rebinds(scope, a) for a in plain):
+        return False
     return all(_kw(c, kw) in accepted for c in cs)
 
 
@@ -211,10 +232,21 @@ def _plain(e, name) -> bool:
             and not e.keywords and _is_name(e.args[0], name))
 
 
-def _store_xfer(e, name, where) -> str:
+def _store_xfer(e, name, where, tree=None, depth=0) -> str:
     """What `self._x = <e>` does to the seed held by `name`.  Unknown shapes fail closed."""
     if _plain(e, name):
         return XID
+    if tree is not None and depth < 3 and isinstance(e, ast.Call) and isinstance(e.func, ast.Name) \
+            and len(e.args) + len(e.keywords) == 1 and _is_name((e.args + [k.value for k in e.keywords])[0], name):
+        # a validating helper of the same module: [guards that only raise]; return <expr of its parameter>
+        hs = [f for f in tree.body if isinstance(f, ast.FunctionDef) and f.name == e.func.id]
+        if len(hs) == 1 and len(hs[0].args.args) == 1 and not hs[0].decorator_list:
+            p = hs[0].args.args[0].arg
+            body = [st for st in norm.ifelse_to_ifexp(norm.guards_to_ifelse(body_no_doc(hs[0])))
+                    if not isinstance(st, ast.Pass)
+                    and not (isinstance(st, ast.If) and not st.orelse and all(isinstance(x, ast.Raise) for x in st.body))]
+            if len(body) == 1 and isinstance(body[0], ast.Return) and body[0].value is not None:
+                return _store_xfer(body[0].value, p, where, tree, depth + 1)
     if _is_none(e):
         return XDROP
     if isinstance(e, ast.IfExp):
@@ -262,7 +294,7 @@ def _ctor_store(tree, cls, attr, where):
     if len(found) != 1:
         raise TranslationError(f"{where}: __init__ stores {attr} {len(found)} times")
     field, v = found[0]
-    return _store_xfer(v, attr, f"{where}.__init__"), field
+    return _store_xfer(v, attr, f"{where}.__init__", tree), field
 
 
 def _getter(tree, cls, attr, field) -> str:
@@ -293,7 +325,7 @@ def _setter(tree, cls, attr, field, where):
     if len(params) != 2:
         fail(fn, f"{where}: setter signature")
     val = params[1]
-    body = [st for st in body_no_doc(fn) if not isinstance(st, ast.Pass)]
+    body = [st for st in norm.ifelse_to_ifexp(norm.guards_to_ifelse(body_no_doc(fn))) if not isinstance(st, ast.Pass)]
     while body and isinstance(body[0], ast.If) and not body[0].orelse \
             and all(isinstance(x, ast.Raise) for x in body[0].body):
         body = body[1:]                                   # validation that only raises
@@ -308,7 +340,7 @@ def _setter(tree, cls, attr, field, where):
         fail(st, f"{where}: setter does not end in an assignment")
     if field is None or ast.unparse(tgt) != field:
         return XDROP                                      # stores somewhere the getter does not read
-    return _store_xfer(v, val, f"{where} setter")
+    return _store_xfer(v, val, f"{where} setter", tree)
 
 
 def _builder(repo, fname, cls, where) -> str:
@@ -329,7 +361,7 @@ def _override(repo) -> str:
     """run.apply_overrides: a mode key ends in `setattr(obj, att, value)` with the loop's own value."""
     tree = parse(repo, "pyxel/run.py")
     fn = find_func(tree, "apply_overrides")
-    loops = [n for n in ast.walk(fn) if isinstance(n, ast.For) and ast.unparse(n.iter) == "overrides.items()"]
+    loops = [n for n in ast.walk(fn) if isinstance(n, ast.For) and ast.unparse(norm.resolve(fn, n.iter)) == "overrides.items()"]
     if len(loops) != 1 or not isinstance(loops[0].target, ast.Tuple) or len(loops[0].target.elts) != 2:
         raise TranslationError("apply_overrides: expected one `for key, value in overrides.items()`")
     val = ast.unparse(loops[0].target.elts[1])
@@ -348,6 +380,25 @@ def _b(ok: bool) -> str:
     return XID if ok else XDROP
 
 
+# the functions the link table names as ends of a link are never inlined into their callers
+LINK_ENDS = ("run_pipeline", "run_pipelines_with_dask", "_run_pipelines_array_to_datatree", "_run_pipelines_tuple_to_array",
+             "_run_single_pipeline", "run_pipelines", "run_exposure", "run_calibration", "set_random_seed",
+             "create_island", "_build", "apply_ufunc")
+
+
+def _nf(tree, name, cls=None):
+    """find_func + general normalisations (private helpers of the same module / class inlined, guard clauses ->
+    if/else, single-assignment aliases substituted): an equivalent rewrite of the function reads the same."""
+    fn = find_func(tree, name, cls)
+    return norm.normalised(fn, tree, _class(tree, cls) if cls else None, stop=LINK_ENDS)
+
+
+def _nclass(tree, cls):
+    c = _class(tree, cls)
+    return ast.Module(body=[norm.normalised(f, tree, c, stop=LINK_ENDS) if isinstance(f, ast.FunctionDef) else f
+                            for f in c.body], type_ignores=[])
+
+
 def links(repo: Path) -> list[tuple[str, str, str, str]]:
     out = []
     SELF = ("self.pipeline_seed", "self._pipeline_seed")
@@ -355,7 +406,7 @@ def links(repo: Path) -> list[tuple[str, str, str, str]]:
 
     # run_pipeline itself: every processor.run_pipeline(...) sits inside `with set_random_seed(seed=pipeline_seed)`
     ex = parse(repo, "pyxel/exposure/exposure.py")
-    rp = find_func(ex, "run_pipeline")
+    rp = _nf(ex, "run_pipeline")
     if "pipeline_seed" not in [a.arg for a in rp.args.args + rp.args.kwonlyargs]:
         raise TranslationError("run_pipeline has no pipeline_seed parameter")
     inner = [n for n in ast.walk(rp) if isinstance(n, ast.Call) and _callname(n) == "processor.run_pipeline"]
@@ -396,43 +447,44 @@ def links(repo: Path) -> list[tuple[str, str, str, str]]:
 
     doors(("exposure",), ex, "Exposure", "to_exposure", "Exposure")
     out.append(("exposure", "", "Exposure.run_exposure -> run_pipeline",
-                _b(_link_all_calls(find_func(ex, "run_exposure", "Exposure"), "run_pipeline", "pipeline_seed", SELF,
+                _b(_link_all_calls(_nf(ex, "run_exposure", "Exposure"), "run_pipeline", "pipeline_seed", SELF,
                                    "Exposure.run_exposure"))))
 
     ob = parse(repo, "pyxel/observation/observation.py")
     doors(("observation", "observation_dask"), ob, "Observation", "to_observation", "Observation")
     out.append(("observation", "", "Observation._run_single_pipeline -> run_pipeline",
-                _b(_link_all_calls(find_func(ob, "_run_single_pipeline", "Observation"), "run_pipeline",
+                _b(_link_all_calls(_nf(ob, "_run_single_pipeline", "Observation"), "run_pipeline",
                                    "pipeline_seed", SELF, "Observation._run_single_pipeline"))))
     out.append(("observation_dask", "", "Observation.run_pipelines -> run_pipelines_with_dask",
-                _b(_link_all_calls(find_func(ob, "run_pipelines", "Observation"), "run_pipelines_with_dask",
+                _b(_link_all_calls(_nf(ob, "run_pipelines", "Observation"), "run_pipelines_with_dask",
                                    "pipeline_seed", SELF, "Observation.run_pipelines"))))
     od = parse(repo, "pyxel/observation/observation_dask.py")
-    rwd = find_func(od, "run_pipelines_with_dask")
+    rwd = _nf(od, "run_pipelines_with_dask")
     out.append(("observation_dask", "", "run_pipelines_with_dask -> first _run_pipelines_array_to_datatree",
                 _b(_link_all_calls(rwd, "_run_pipelines_array_to_datatree", "pipeline_seed", ARG, "run_pipelines_with_dask"))))
     au = _calls(rwd, "apply_ufunc")
     if len(au) != 1:
         raise TranslationError("run_pipelines_with_dask: expected one apply_ufunc call")
-    kwargs = [k.value for k in au[0].keywords if k.arg == "kwargs"]
+    kwargs = [norm.resolve(rwd, k.value) for k in au[0].keywords if k.arg == "kwargs"]   # dict display, or a name bound once to one
     ok = False
     if len(kwargs) == 1 and isinstance(kwargs[0], ast.Dict):
         for k, v in zip(kwargs[0].keys, kwargs[0].values):
-            if isinstance(k, ast.Constant) and k.value == "pipeline_seed" and ast.unparse(v) == "pipeline_seed":
+            if isinstance(k, ast.Constant) and k.value == "pipeline_seed" and ast.unparse(v) == "pipeline_seed" \
+                    and not _rebinds(rwd, "pipeline_seed"):
                 ok = True
     if not au[0].args or ast.unparse(au[0].args[0]) != "_run_pipelines_tuple_to_array":
         raise TranslationError("apply_ufunc no longer applies _run_pipelines_tuple_to_array")
     out.append(("observation_dask", "", "run_pipelines_with_dask -> apply_ufunc kwargs", _b(ok)))
     out.append(("observation_dask", "", "_run_pipelines_tuple_to_array -> _run_pipelines_array_to_datatree",
-                _b(_link_all_calls(find_func(od, "_run_pipelines_tuple_to_array"), "_run_pipelines_array_to_datatree",
+                _b(_link_all_calls(_nf(od, "_run_pipelines_tuple_to_array"), "_run_pipelines_array_to_datatree",
                                    "pipeline_seed", ARG, "_run_pipelines_tuple_to_array"))))
     out.append(("observation_dask", "", "_run_pipelines_array_to_datatree -> run_pipeline",
-                _b(_link_all_calls(find_func(od, "_run_pipelines_array_to_datatree"), "run_pipeline",
+                _b(_link_all_calls(_nf(od, "_run_pipelines_array_to_datatree"), "run_pipeline",
                                    "pipeline_seed", ARG, "_run_pipelines_array_to_datatree"))))
 
     ca = parse(repo, "pyxel/calibration/calibration.py")
     doors(("calibration",), ca, "Calibration", "to_calibration", "Calibration")
-    rc = find_func(ca, "run_calibration", "Calibration")
+    rc = _nf(ca, "run_calibration", "Calibration")
     out.append(("calibration", "", "Calibration.run_calibration -> ModelFittingDataTree",
                 _b(_link_all_calls(rc, "ModelFittingDataTree", "pipeline_seed", SELF, "Calibration.run_calibration"))))
     fd = parse(repo, "pyxel/calibration/fitting_datatree.py")
@@ -440,7 +492,7 @@ def links(repo: Path) -> list[tuple[str, str, str, str]]:
     out.append(("calibration", "", "ModelFittingDataTree.__init__ stores pipeline_seed", fx))
     out.append(("calibration", "", "ModelFittingDataTree.pipeline_seed reads the stored field",
                 _getter(fd, "ModelFittingDataTree", "pipeline_seed", ffield)))
-    clsnode = _class(fd, "ModelFittingDataTree")
+    clsnode = _nclass(fd, "ModelFittingDataTree")
     out.append(("calibration", "", "ModelFittingDataTree.* -> run_pipeline",
                 _b(_link_all_calls(clsnode, "run_pipeline", "pipeline_seed", SELF, "ModelFittingDataTree"))))
     # optimiser seed (pygmo's own generator is not modelled; only the plumbing is read)
@@ -460,36 +512,51 @@ def links(repo: Path) -> list[tuple[str, str, str, str]]:
 
 def _build_fn(repo):
     tree = parse(repo, "pyxel/calibration/archipelago_datatree.py")
-    return find_func(tree, "_build", "ArchipelagoDataTree")
+    return _nf(tree, "_build", "ArchipelagoDataTree")
+
+
+def _assigns(fn):
+    """(target, value) of every plain / annotated assignment of the function."""
+    for n in ast.walk(fn):
+        if isinstance(n, ast.Assign) and len(n.targets) == 1:
+            yield n.targets[0], n.value
+        elif isinstance(n, ast.AnnAssign) and n.value is not None:
+            yield n.target, n.value
 
 
 def _island_seeds_ok(repo) -> bool:
+    """The list the islands are created from (whatever it is called: the name is taken from the place where it is
+    USED, `map(create_island, <name>)` / `submit(create_island, x) for x in <name>`) holds values drawn from a local
+    `default_rng(self.pygmo_seed)` (list comprehension, or append()s in a loop), and create_island hands its seed
+    to pg.island.  _build is read after the general normalisations (the derivation may live in a private helper)."""
     fn = _build_fn(repo)
+    _, seed_names, maker_names = _island_build(fn)
     rng_names = set()
-    for n in ast.walk(fn):
-        tgt = v = None
-        if isinstance(n, ast.Assign) and len(n.targets) == 1:
-            tgt, v = n.targets[0], n.value
-        elif isinstance(n, ast.AnnAssign) and n.value is not None:
-            tgt, v = n.target, n.value
+    for tgt, v in _assigns(fn):
         if isinstance(tgt, ast.Name) and isinstance(v, ast.Call) and _callname(v).endswith("default_rng"):
             args = [ast.unparse(a) for a in v.args] + [ast.unparse(k.value) for k in v.keywords if k.arg == "seed"]
             if args == ["self.pygmo_seed"]:
                 rng_names.add(tgt.id)
-    seeds_from_rng = False
-    for n in ast.walk(fn):
-        tgt = v = None
-        if isinstance(n, ast.Assign) and len(n.targets) == 1:
-            tgt, v = n.targets[0], n.value
-        elif isinstance(n, ast.AnnAssign) and n.value is not None:
-            tgt, v = n.target, n.value
-        if isinstance(tgt, ast.Name) and tgt.id == "seeds" and isinstance(v, ast.ListComp):
-            used = {x.value.id for x in ast.walk(v.elt) if isinstance(x, ast.Attribute) and isinstance(x.value, ast.Name)}
-            if used & rng_names:
-                seeds_from_rng = True
-    ci = [f for f in ast.walk(fn) if isinstance(f, ast.FunctionDef) and f.name == "create_island"]
+
+    def uses_rng(e):
+        return bool({x.value.id for x in ast.walk(e) if isinstance(x, ast.Attribute) and isinstance(x.value, ast.Name)}
+                    & rng_names)
+
+    ok_names = set()
+    for tgt, v in _assigns(fn):
+        if isinstance(tgt, ast.Name) and tgt.id in seed_names and isinstance(v, ast.ListComp) and uses_rng(v.elt):
+            ok_names.add(tgt.id)
+    for c in ast.walk(fn):         # seeds = []; for ...: seeds.append(<drawn from rng>)
+        if isinstance(c, ast.Call) and isinstance(c.func, ast.Attribute) and c.func.attr == "append" \
+                and isinstance(c.func.value, ast.Name) and c.func.value.id in seed_names and len(c.args) == 1 \
+                and uses_rng(c.args[0]):
+            ok_names.add(c.func.value.id)
+    seeds_from_rng = bool(seed_names) and seed_names <= ok_names
+    if len(maker_names) != 1:
+        raise TranslationError("_build: the two branches create the islands with different functions")
+    ci = [f for f in ast.walk(fn) if isinstance(f, ast.FunctionDef) and f.name in maker_names]
     if len(ci) != 1:
-        raise TranslationError("_build: expected one local create_island")
+        raise TranslationError("_build: expected one local function that creates an island from a seed")
     params = [a.arg for a in ci[0].args.args]
     isl = [c for c in ast.walk(ci[0]) if isinstance(c, ast.Call) and _callname(c).split(".")[-1] == "island"]
     hands = bool(params) and len(isl) == 1 and _kw(isl[0], "seed") == params[0]
@@ -499,7 +566,12 @@ def _island_seeds_ok(repo) -> bool:
 def island_build(repo: Path) -> list[tuple[str, str]]:
     """For the `if self.parallel:` / else branches of _build: how the loop that push_back()s the islands
     iterates over them."""
-    fn = _build_fn(repo)
+    return _island_build(_build_fn(repo))[0]
+
+
+def _island_build(fn):
+    """-> (rows, names of the lists the islands are created from, names of the function that creates one island)"""
+    seed_names, maker_names = set(), set()
     ifs = [n for n in fn.body if isinstance(n, ast.If) and ast.unparse(n.test) == "self.parallel"]
     if len(ifs) != 1 or not ifs[0].orelse:
         raise TranslationError("_build: expected one `if self.parallel: ... else: ...`")
@@ -538,26 +610,31 @@ def island_build(repo: Path) -> list[tuple[str, str]]:
         if not isinstance(it, ast.Call):
             # a list of futures read in order
             if isinstance(it, ast.ListComp) and pushed == f"{var}.result()" and _is_submit_comp(it):
+                seed_names.add(it.generators[0].iter.id)
+                maker_names.add(it.elt.args[0].id)
                 return "BMap"
             raise TranslationError(f"_build ({where}): iterable `{ast.unparse(it)}` has a shape the translator does not know")
         nm = _callname(it)
         last = nm.split(".")[-1]
-        if last == "map" and len(it.args) == 2 and ast.unparse(it.args[0]) == "create_island" \
-                and ast.unparse(it.args[1]) == "seeds" and pushed == var:
+        if last == "map" and len(it.args) == 2 and isinstance(it.args[0], ast.Name) \
+                and isinstance(it.args[1], ast.Name) and pushed == var:
+            seed_names.add(it.args[1].id)
+            maker_names.add(it.args[0].id)
             return "BMap"                       # builtin map / executor.map: results in submission order
         if last == "as_completed":
             return "BAsCompleted"
         raise TranslationError(f"_build ({where}): iterable `{ast.unparse(it)}` has a shape the translator does not know")
 
-    return [("parallel", kind_of(ifs[0].body, "parallel")), ("sequential", kind_of(ifs[0].orelse, "sequential"))]
+    rows = [("parallel", kind_of(ifs[0].body, "parallel")), ("sequential", kind_of(ifs[0].orelse, "sequential"))]
+    return rows, seed_names, maker_names
 
 
 def _is_submit_comp(lc: ast.ListComp) -> bool:
-    if len(lc.generators) != 1 or lc.generators[0].ifs or ast.unparse(lc.generators[0].iter) != "seeds":
+    if len(lc.generators) != 1 or lc.generators[0].ifs or not isinstance(lc.generators[0].iter, ast.Name):
         return False
     e = lc.elt
     return isinstance(e, ast.Call) and _callname(e).split(".")[-1] == "submit" and len(e.args) == 2 \
-        and ast.unparse(e.args[0]) == "create_island" and ast.unparse(e.args[1]) == ast.unparse(lc.generators[0].target)
+        and isinstance(e.args[0], ast.Name) and ast.unparse(e.args[1]) == ast.unparse(lc.generators[0].target)
 
 
 def _with_seed_expr(w: ast.With):
@@ -747,6 +824,12 @@ def seed_truthiness(repo: Path):
     return out
 
 
+def _has_bracket(fn) -> bool:
+    return any(isinstance(w, ast.With) and any(
+        isinstance(i.context_expr, ast.Call) and _callname(i.context_expr).split(".")[-1] == "set_random_seed"
+        for i in w.items) for w in ast.walk(fn))
+
+
 def models(repo: Path):
     root = repo / "pyxel" / "models"
     if not root.is_dir():
@@ -807,6 +890,10 @@ def models(repo: Path):
         params = [a.arg for a in node.args.args + node.args.kwonlyargs + node.args.posonlyargs]
         if "seed" not in params:
             continue
+        # a bracket that lives in a private helper of the same module / class (`with set_random_seed(seed)` moved into
+        # a function that is handed `seed`) reads like the bracket written in place: inline such helpers first
+        clsnode = next((c for c in mods[rel].body if isinstance(c, ast.ClassDef) and c.name == cls), None) if cls else None
+        node = norm.normalised(node, mods[rel], clsnode, only=_has_bracket)
         inside_ids = set()
         bracket_seed = False
         n_brackets = 0
